@@ -70,8 +70,15 @@ def _one_move(rng, exact):
 def random_descs(rng, n, exact):
     out = []
     depth, named = 0, []
+    hooked = False
     for _ in range(n):
         x = rng.random()
+        if x > 0.97:
+            # a move hook is registered (or removed) while a transform is in force (added after seed C04i: the hook loop rebuilt
+            # the target from the REQUESTED coordinates); the hook only adds a word of its own
+            hooked = not hooked
+            out.append({"call": "add_probe_hook" if hooked else "remove_probe_hook"})
+            continue
         if x < 0.08:
             # a transform context (added after seed C04g): `with g.current_transform():` / `with g.named_transform(name):`, a
             # change of the frame and moves inside, and -- what matters -- moves right after the block, under the outer frame
